@@ -65,13 +65,30 @@ def linear_cases(draw):
     d = len(m['A'])
     batched = draw(st.booleans())
     n = draw(st.integers(1, 5)) if batched else 1
-    ytype = draw(st.sampled_from(['float', 'float', 'floatlist', 'int', 'intlist']))
+    ytype = draw(st.sampled_from(['float', 'float', 'floatlist', 'int', 'intlist', 'float_ro', 'float_strided', 'float_F', 'int16', 'float32']))
     ent = gens.nice(-2.0, 2.0, 3) if ytype.startswith('float') else st.integers(-3, 3)
     y = [[draw(ent) for _ in range(d)] for _ in range(n)]
+    dec = None
+    if batched and ytype.startswith('float') and ytype != 'float32' and draw(st.booleans()):
+        # rows of very different magnitude in one call: every row is judged relative to its own size
+        dec = [draw(st.integers(-8, 8)) for _ in range(n)]
     if not batched:
         y = y[0]
-    return {'m': m, 'y': y, 'ytype': ytype, 'h': draw(gens.nice(1e-3, 0.5, 4)), 'method': draw(st.sampled_from(['euler', 'rk'])),
-            'kw': draw(st.sampled_from([None, 'scale', 'offset']))}
+    h = draw(gens.nice(1e-3, 0.5, 4))
+    if draw(st.integers(0, 5)) == 0:
+        h = draw(st.sampled_from([1e-9, 1e-7, 1e-5, 1e-4, 0.75, 1.0, 1.5, 2.0]))
+    return {'m': m, 'y': y, 'ytype': ytype, 'h': h, 'method': draw(st.sampled_from(['euler', 'rk'])),
+            'kw': draw(st.sampled_from([None, 'scale', 'offset'])), 'dec': dec, 'other': [draw(gens.nice(-2.0, 2.0, 3)) for _ in range(d)]}
+
+
+def start_vectors(case):
+    """the float64 values of the start vector(s) the case describes"""
+    y = np.array(case['y'], dtype=float)
+    if case.get('dec'):
+        y = y * (10.0 ** np.array(case['dec'], dtype=float))[:, None]
+    if case.get('ytype') == 'float32':
+        y = y.astype(np.float32).astype(float)
+    return y
 
 
 def _rate(A, kw):
@@ -106,17 +123,47 @@ def _step(case, A, y, h):
     fxn = integrator.euler if case['method'] == 'euler' else integrator.rungekutta
     rate, kwargs = _rate(A, case['kw'])
     yt = case.get('ytype', 'float')
-    arg = np.array(y, dtype=int) if yt.startswith('int') else np.array(y, dtype=float)
-    got = np.array(fxn(rate, arg, h, **kwargs), dtype=float)
+    if yt == 'int16':
+        arg = np.array(y, dtype=np.int16)
+    elif yt.startswith('int'):
+        arg = np.array(y, dtype=int)
+    elif yt == 'float32':
+        arg = np.array(y, dtype=np.float32)
+    else:
+        arg = np.array(y, dtype=float)
+        if yt == 'float_ro':
+            arg.setflags(write=False)
+        elif yt == 'float_F':
+            arg = np.asfortranarray(arg)
+        elif yt == 'float_strided':
+            big = np.full(tuple(2 * k for k in arg.shape), 7.25); sl = tuple(slice(None, None, 2) for _ in arg.shape)
+            big[sl] = arg; arg = big[sl]
+    before = arg.tobytes()
+    raw = fxn(rate, arg, h, **kwargs)
+    require(arg.tobytes() == before, lambda: '%s changed the start vector it was given' % case['method'])
+    require(not (isinstance(raw, np.ndarray) and np.shares_memory(raw, arg)), lambda: '%s returned memory of its argument' % case['method'])
+    got = np.array(raw, dtype=float)
     again = np.array(fxn(rate, arg, h, **kwargs), dtype=float)
     require(got.shape == again.shape and np.array_equal(got, again),
             lambda: '%s: stepping the same start vector object twice gives different results (%r then %r): the integrator '
                     'changed its argument' % (case['method'], got.tolist(), again.tolist()))
+    # a later step from another start vector (and with another step size) must not reach the result handed out earlier
+    if case.get('other') is not None and isinstance(raw, np.ndarray):
+        o = np.array(case['other'], dtype=float)
+        fxn(rate, (np.zeros_like(np.array(y, dtype=float)) + o), 0.5 * h + 0.01, **kwargs)
+        require(np.array_equal(np.array(raw, dtype=float), got), lambda: '%s: the result handed out earlier changed after a later step: was %r, is %r'
+                % (case['method'], got.tolist(), np.asarray(raw).tolist()))
     return got
 
 
 def _lin_labels(case, A):
     labs = {case['method'], 'd%d' % A.shape[0], case['m']['kind'], 'kw_' + str(case['kw']), 'y' + case.get('ytype', 'float')}
+    if case.get('dec') and len(set(case['dec'])) > 1:
+        labs.add('row_decades')
+        if max(case['dec']) - min(case['dec']) >= 8:
+            labs.add('row_span8')
+    if not 1e-3 <= case['h'] <= 0.5:
+        labs.add('h_extreme')
     normal = np.abs(A @ A.T - A.T @ A).max() <= 1e-12 * max(1.0, np.abs(A).max() ** 2)
     if not normal:
         labs.add('nonnormal')
@@ -129,15 +176,18 @@ def _lin_labels(case, A):
 
 def oracle_taylor(case):
     A = mat(case['m'])
-    y = np.array(case['y'], dtype=float)
+    y = start_vectors(case)
     h = float(case['h'])
     p = 1 if case['method'] == 'euler' else 4
     got = _step(case, A, y, h)
     require(got.shape == y.shape, lambda: '%s returned shape %r for state shape %r' % (case['method'], got.shape, y.shape))
     exp = _poly(A, h, y, p)
-    ymax = max(np.abs(y).max(), 1e-300)
-    tol = 64 * 2.3e-16 * ymax * (1 + h * np.linalg.norm(A, 2)) ** 4 * A.shape[0]
-    err = np.abs(got - exp).max()
+    # every row relative to its own magnitude (offset keyword: the rate law adds b - 1.5 = 0 exactly)
+    ymax = np.maximum(np.abs(y).max(axis=-1, keepdims=True), 1e-300)
+    eps = 6e-8 if case.get('ytype') == 'float32' else 2.3e-16
+    tol = 64 * eps * ymax * (1 + h * np.linalg.norm(A, 2)) ** 4 * A.shape[0]
+    err = (np.abs(got - exp) / tol).max() * tol.max()
+    tol = tol.max()
     if err > tol:
         key = None
         if p == 4 and np.abs(got - _buggy_rk(A, h, y)).max() <= tol:
@@ -152,6 +202,8 @@ def oracle_order(case):
     omitted Taylor terms, at h and h/2; when N <= 0.04 L the ratio e(h)/e(h/2) lies within 20 % of 2^(p+1)"""
     from scipy.linalg import expm
     A = mat(case['m'])
+    if case.get('ytype') == 'float32' or case.get('dec'):
+        case = dict(case, ytype='float', dec=None)        # the order bracket is a norm over the batch in double precision
     y = np.array(case['y'], dtype=float)
     if y.ndim == 1:
         y = y[None, :]
@@ -208,8 +260,17 @@ def gradient_cases(draw):
     npts = int(np.prod(shape)) if shape else 1
     pts = [[draw(gens.nice(-2.0, 2.0, 3)) for _ in range(d)] for _ in range(npts)]
     shift = draw(st.sampled_from([None, 1e-6, 1e-5, 1e-4, 1e-3, 1e-2])) if draw(st.booleans()) else draw(gens.nice(1e-6, 1e-2, 7))
+    form = draw(st.sampled_from(['f64', 'f64', 'f32', 'ro', 'strided', 'F', 'int', 'int', 'int16']))
+    dec = None
+    if form in ('f64', 'ro', 'strided', 'F') and draw(st.integers(0, 2)) == 0:
+        # evaluation points of very different magnitude in one call (no exponential terms then): each judged on its own
+        dec = [draw(st.integers(-6, 3)) for _ in range(npts)]
+        exps = []
+    if form.startswith('int'):
+        pts = [[float(draw(st.integers(-3, 3))) for _ in range(d)] for _ in range(npts)]
     return {'d': d, 'sins': sins, 'exps': exps, 'quad': quad, 'cub': cub, 'lin': lin, 'shape': shape, 'pts': pts,
-            'shift': shift, 'aslist': draw(st.booleans()), 'f32': draw(st.integers(0, 4)) == 0}
+            'shift': shift, 'aslist': draw(st.booleans()), 'f32': draw(st.integers(0, 4)) == 0, 'form': form, 'dec': dec,
+            'other': [draw(gens.nice(-2.0, 2.0, 3)) for _ in range(d)]}
 
 
 def _fun(case):
@@ -263,24 +324,52 @@ def oracle_gradient(case):
     from atomman.mep.gradient import central_difference
     d = case['d']
     f, grad, third, fmag = _fun(case)
-    x = np.array(case['pts'], dtype=float).reshape(list(case['shape']) + [d])
-    f32 = bool(case.get('f32')) and not case['aslist']
+    x = np.array(case['pts'], dtype=float)
+    if case.get('dec'):
+        x = x * (10.0 ** np.array(case['dec'], dtype=float))[:, None]
+    x = x.reshape(list(case['shape']) + [d])
+    form = case.get('form', 'f64')
+    isint = form.startswith('int')
+    f32 = (form == 'f32' or (bool(case.get('f32')) and form == 'f64')) and not case['aslist'] and not case.get('dec')
     if f32:
         # evaluation points handed over as a float32 array (the values the function sees are those float32 numbers);
-        # central_difference returns its result in the dtype of coord, so the bound gains one float32 rounding
+        # the bound allows one float32 rounding of the result
         x = x.astype(np.float32).astype(float)
-    arg = x.tolist() if case['aslist'] else (x.astype(np.float32) if f32 else x)
+    if isint:
+        arg = x.astype(int).tolist() if case['aslist'] else x.astype(np.int16 if form == 'int16' else int)
+    elif case['aslist']:
+        arg = x.tolist()
+    elif f32:
+        arg = x.astype(np.float32)
+    elif form == 'ro':
+        arg = x.copy(); arg.setflags(write=False)
+    elif form == 'F':
+        arg = np.asfortranarray(x)
+    elif form == 'strided':
+        big = np.full(tuple(2 * k for k in x.shape), 7.25); sl = tuple(slice(None, None, 2) for _ in x.shape)
+        big[sl] = x; arg = big[sl]
+    else:
+        arg = x.copy()
+    before = arg.tobytes() if isinstance(arg, np.ndarray) else repr(arg)
     if case['shift'] is None:
-        got = central_difference(f, arg); shift = 1e-5
+        raw = central_difference(f, arg); shift = 1e-5
     else:
         shift = float(case['shift'])
-        got = central_difference(f, arg, shift=shift)
-    got = np.asarray(got)
+        raw = central_difference(f, arg, shift=shift)
+    require((arg.tobytes() if isinstance(arg, np.ndarray) else repr(arg)) == before, 'central_difference changed the coordinates it was given')
+    got = np.array(raw, dtype=float)
     require(got.shape == x.shape, lambda: 'gradient shape %r for coord shape %r' % (got.shape, x.shape))
+    # a later evaluation elsewhere must not reach the array handed out earlier
+    if case.get('other') is not None and isinstance(raw, np.ndarray):
+        central_difference(f, np.zeros_like(x) + np.array(case['other'], dtype=float), shift=2 * shift)
+        require(np.array_equal(np.array(raw, dtype=float), got), lambda: 'the gradient handed out earlier changed after a later call: was %r, is %r'
+                % (got.tolist(), np.asarray(raw).tolist()))
     exact = grad(x)
-    # truncation shift^2/6 |f'''| + rounding: each f value carries ~ (terms) eps |f| and x+-shift carries eps|x| -> eps |grad|
+    # truncation shift^2/6 |f'''| + rounding: each f value carries ~ (terms) eps |f| and x+-shift carries eps|x| -> eps |grad|;
+    # every point against its own magnitudes
+    xmag = np.abs(x).max(axis=-1, keepdims=True)
     bound = shift ** 2 / 6 * third(x, shift) * 1.0001 + (40 * 2.3e-16 * (fmag(x) + 1.0)[..., None] / shift) \
-        + 1e-14 * (np.abs(exact) + 1) + 2.3e-16 * (np.abs(x).max() + 1) / shift * (np.abs(exact) + 1)
+        + 1e-14 * (np.abs(exact) + 1) + 2.3e-16 * (xmag + 1) / shift * (np.abs(exact) + 1)
     if f32:
         bound = bound + 1.2e-7 * (np.abs(exact) + 1e-30) + 1e-38
     err = np.abs(got - exact)
@@ -288,11 +377,15 @@ def oracle_gradient(case):
     require(not bad.any(), lambda: 'central_difference differs from the analytic gradient by %.3g (bound %.3g, shift %g): got %r exact %r'
             % (err[bad].max(), bound[bad].max(), shift, got.tolist(), exact.tolist()))
     labs = {'d%d' % d, 'lead%d' % len(case['shape']), 'list' if case['aslist'] else ('float32' if f32 else 'array'),
-            'default_shift' if case['shift'] is None else 'shift'}
+            'default_shift' if case['shift'] is None else 'shift', 'form_' + ('int' if isint else ('f64' if form == 'f32' else form))}
+    if isint:
+        labs.add('int_list' if case['aslist'] else 'int_array')
+    if case.get('dec') and len(set(case['dec'])) > 1:
+        labs.add('pt_decades')
     # second order: halving the shift divides the truncation error by 4 where truncation dominates rounding
     tb = shift ** 2 / 6 * third(x, 0.0)
     rb = 40 * 2.3e-16 * (fmag(x) + 1.0)[..., None] / shift
-    if case['shift'] is not None and shift >= 2e-4 and not f32:
+    if case['shift'] is not None and shift >= 2e-4 and not f32 and not case.get('dec'):
         g2 = np.asarray(central_difference(f, arg, shift=shift / 2))
         e1, e2 = np.abs(got - exact), np.abs(g2 - exact)
         dom = (e1 > 1e3 * rb) & (e1 > 1e-9)
@@ -483,11 +576,11 @@ def oracle_relax(case):
 
 
 CLAUSES = [
-    Clause('taylor', oracle_taylor, linear_cases, quick=16000, thorough=400000, min_share={'nt': 0.2, 'batched': 0.2, 'rk': 0.2, 'yint': 0.08},
+    Clause('taylor', oracle_taylor, linear_cases, quick=16000, thorough=400000, min_share={'nt': 0.2, 'batched': 0.2, 'rk': 0.2, 'yint': 0.04, 'yfloat32': 0.04, 'yfloat_strided': 0.04, 'row_decades': 0.06, 'h_extreme': 0.07},
            desc='euler / rungekutta step on y\'=Ay equals the degree-1 / degree-4 Taylor polynomial of exp(hA) y; shapes and keyword pass-through'),
     Clause('order', oracle_order, linear_cases, quick=8000, thorough=200000, min_share={'nt': 0.2, 'ratio_checked': 0.05},
            desc='one-step error against expm(hA) y is the first omitted Taylor term (rigorous bracket) and falls by 2^(p+1) on halving h'),
-    Clause('gradient', oracle_gradient, gradient_cases, quick=8000, thorough=200000, min_share={'nt': 0.2, 'ratio_checked': 0.02, 'float32': 0.04},
+    Clause('gradient', oracle_gradient, gradient_cases, quick=8000, thorough=200000, min_share={'nt': 0.2, 'ratio_checked': 0.02, 'float32': 0.035, 'int_list': 0.05, 'int_array': 0.05, 'pt_decades': 0.05, 'form_strided': 0.03},
            desc='central_difference against the analytic gradient within shift^2/6 max|f\'\'\'| + rounding; ratio 4 on halving the shift; shapes'),
     Clause('relax', oracle_relax, relax_cases, quick=160, thorough=4000, nshards=16, min_share={'nt': 0.3, 'prior_other_path_settings': 0.1, 'prior_coord_replaced': 0.1}, max_share={'not_converged_skipped': 0.15},
            desc='string relaxation on the two-minimum family: ends reach the minima, one interior maximum, climbing image reaches the saddle, gradient vanishes, energy = barrier'),
